@@ -204,6 +204,8 @@ structure State where
   prices : List (Nat × Nat) := []      -- active oracle prices (asset id ↦ twa)
   killed : List Nat := []              -- app ids whose ESM kill switch (`BreakerEnable`) is on
   depPools : List Nat := []            -- pool ids listed in the pool-depreciation record
+  depPending : List Nat := []          -- … those of its entries whose flag `IsPoolDepreciated` is false, in record order (the block hook's work list)
+  delPools : List Nat := []            -- pools deleted by the block hook
   resv : List Resv := []               -- reserve book-keeping records per asset
   locked : List Locked := []           -- second-generation locked vaults of handed-over borrows
   deriving Repr
@@ -886,7 +888,8 @@ inductive Op where
   | fundReserve (u asset denom : Nat) (amt : Int)
   | setPrice (asset : Nat) (twa : Option Nat)
   | setKill (app : Nat) (on : Bool)
-  | setDepreciated (pool : Nat)
+  | setDepreciated (pool : Nat) (flag : Bool := false)
+  | beginBlock
   | handover (borrowId : Nat) (newInterest : Dec)
   | bid (bidder borrowId : Nat) (paid recv : Int)
   | auctionClose (bidder borrowId : Nat) (paid recv left topUp : Int)
@@ -912,6 +915,7 @@ def Op.validateBasic : Op → Bool
   | .setPrice .. => true
   | .setKill .. => true
   | .setDepreciated .. => true
+  | .beginBlock => true
   | .handover .. => true
   | .bid .. => true
   | .auctionClose .. => true
@@ -927,7 +931,52 @@ def setKill (s : State) (app : Nat) (on : Bool) : State :=
   let rest := s.killed.filter fun a => a != app
   { s with killed := if on then app :: rest else rest }
 /-- governance: list a pool in the depreciation record (`AddPoolDepreciate`) -/
-def setDepreciated (s : State) (pool : Nat) : State := { s with depPools := pool :: s.depPools }
+def setDepreciated (s : State) (pool : Nat) (flag : Bool := false) : State :=
+  { s with depPools := pool :: s.depPools, depPending := if flag then s.depPending else s.depPending ++ [pool] }
+
+/-! ## The block hook of x/lend (abci.go, every 14400th block): `DeletePoolAndTransferInterest` (pair.go:606-661) -/
+
+/-- no lend or borrow id is listed for (pool, asset) — a missing record reads as empty lists -/
+def noIds (ss : List Stats) (p a : Nat) : Bool :=
+  match getStats ss p a with
+  | some st => st.lendIds.isEmpty && st.borrowIds.isEmpty
+  | none => true
+
+/-- one entry of the depreciation record whose flag is false: when none of the pool's three transit-typed assets has a lend or
+borrow id left, the pool's balances of the three assets go to the reserve (`UpdateReserveBalances`: both record halves, NO
+`AllReserveStats` / `FundReserveBal` entry) and the pool is deleted. The flag is set on a COPY of the entry (range variable), so the
+entry stays pending: at the next run `GetPool` gives the zero record, the asset ids are 0, the id lists of the missing records are
+empty, and `GetBalance` panics on the empty denomination. -/
+def sweepPool (cfg : Cfg) (s : State) (poolId : Nat) : E State := do
+  check (!s.delPools.contains poolId) "invalid denom"
+  let pool ← orErr (cfg.pool? poolId) "invalid denom"
+  let a1 := transitOf pool.assets 1
+  let a2 := transitOf pool.assets 2
+  let a3 := transitOf pool.assets 3
+  if noIds s.stats poolId a1 && noIds s.stats poolId a2 && noIds s.stats poolId a3 then
+    let _ ← orErr (cfg.asset? a1) "invalid denom"
+    let _ ← orErr (cfg.asset? a2) "invalid denom"
+    let _ ← orErr (cfg.asset? a3) "invalid denom"
+    let x1 := s.bank.get pool.acct a1
+    let x2 := s.bank.get pool.acct a2
+    let x3 := s.bank.get pool.acct a3
+    let k1 ← s.bank.send pool.acct cfg.reserveAcct a1 x1
+    let k2 ← k1.send pool.acct cfg.reserveAcct a2 x2
+    let k3 ← k2.send pool.acct cfg.reserveAcct a3 x3
+    let r1 := modResv s.resv a1 fun r => r.halves x1 true
+    let r2 := modResv r1 a2 fun r => r.halves x2 true
+    let r3 := modResv r2 a3 fun r => r.halves x3 true
+    pure { s with bank := k3, resv := r3, delPools := poolId :: s.delPools }
+  else pure s
+
+def sweepPools (cfg : Cfg) : State → List Nat → E State
+  | s, [] => .ok s
+  | s, p :: ps => do
+    let s1 ← sweepPool cfg s p
+    sweepPools cfg s1 ps
+
+/-- the hook at a block height divisible by 14400; an error or panic anywhere discards everything (`ApplyFuncIfNoError`) -/
+def beginBlock (cfg : Cfg) (s : State) : E State := sweepPools cfg s s.depPending
 
 def step (cfg : Cfg) (s : State) (op : Op) : E State :=
   if !op.validateBasic then .error "validate basic" else
@@ -949,7 +998,8 @@ def step (cfg : Cfg) (s : State) (op : Op) : E State :=
   | .fundReserve u asset denom amt => fundReserve cfg s u asset denom amt
   | .setPrice asset twa => .ok (setPrice s asset twa)
   | .setKill app on => .ok (setKill s app on)
-  | .setDepreciated pool => .ok (setDepreciated s pool)
+  | .setDepreciated pool flag => .ok (setDepreciated s pool flag)
+  | .beginBlock => beginBlock cfg s
   | .handover borrowId ni => handover cfg s borrowId ni
   | .bid bidder borrowId paid recv => auctionBid cfg s bidder borrowId paid recv
   | .auctionClose bidder borrowId paid recv left topUp => auctionClose cfg s bidder borrowId paid recv left topUp
